@@ -148,6 +148,8 @@ func runC09Case(c *fw.Ctx, id string, cs c09Case) {
 	var completed, failed int64
 	var firstErr atomic.Value
 	var wg sync.WaitGroup
+	var cacheRegionsCalls int64
+	defer func() { c.Count("cache_regions_calls", atomic.LoadInt64(&cacheRegionsCalls)) }()
 	phaseEnd := time.Now().Add(time.Duration(cs.FaultMS) * time.Millisecond)
 	for g := 0; g < cs.Callers; g++ {
 		wg.Add(1)
@@ -203,6 +205,19 @@ func runC09Case(c *fw.Ctx, id string, cs c09Case) {
 				}
 			}
 		}(g)
+	}
+	if cs.Scans {
+		// the whole table is re-discovered and (re)connected at once, again and
+		// again, while regions fail, move and split
+		wg.Add(1)
+		go func() {
+			defer wg.Done()
+			for time.Now().Before(phaseEnd) {
+				_ = client.CacheRegions([]byte("t"))
+				atomic.AddInt64(&cacheRegionsCalls, 1)
+				time.Sleep(15 * time.Millisecond)
+			}
+		}()
 	}
 	time.Sleep(time.Duration(cs.FaultMS) * time.Millisecond)
 	close(stopFaults)
@@ -314,7 +329,7 @@ func init() {
 		Level:           "exploration",
 		Race:            true,
 		RaceIsViolation: true,
-		Rule: "race-detector builds; runs with G in {8,32,128} callers (gets, puts, batches, scans with a 2 ms renew interval) x R in " +
+		Rule: "race-detector builds; runs with G in {8,32,128} callers (gets, puts, batches, scans with a 2 ms renew interval, repeated CacheRegions) x R in " +
 			"{1,4,16} regions x S in {1,2,4} servers while an injector applies, every 2..27 ms, connection kills, offline bursts, " +
 			"splits, moves, abort exceptions and refused dials; ten of the client's log statements act as preemption points with " +
 			"seeded delays up to 3 ms. Each run ends with a fault-free phase, a final round over all regions and quiescence " +
